@@ -1,4 +1,54 @@
-From WV Require Import Model.FsmPub Proofs.FsmPubP.
-Theorem C09_placeholder : forall ls ls2, well_used ls -> csm (exec init (ls ++ LTeardown :: LPublishShutdown :: ls2)) = Shutdown.
-Proof. exact closed_reports_shutdown. Qed.
-Print Assumptions C09_placeholder.
+(* C09 — closing a client connection is safe and final.
+   Model/CloseLTS.v: every goroutine of a ClientConn (any number of Close calls, the reconnect
+   loop, the state publisher, the reader manager and its readers, the read and write pump and the
+   close callback of every transport ever dialled, request/response goroutines, Invoke calls) as a
+   labelled transition system; one label is one scheduling step of one goroutine or one move of
+   the environment (a message arrives, a socket dies, a dial succeeds or fails, a timer fires, a
+   handler returns, the user starts a call or a Close). `good` is the configuration of the code
+   as it is now (the check re-extracts it from the sources on every run); ls ranges over ALL
+   schedules, `exec` skips labels that are not enabled. *)
+From Coq Require Import List.
+From WV Require Import Model.CloseLTS Proofs.CloseInv Proofs.CloseP.
+Import ListNotations.
+
+(* Close never crashes the process, whatever it lands on: no nil dereference in Invoke or in a
+   request goroutine, no second close of a channel, for any interleaving of any number of Close
+   calls with everything else *)
+Theorem C09_never_crashes : forall ls, crashed (exec good init ls) = false.
+Proof. intros ls. exact (i_nc _ (inv_exec ls init inv_init)). Qed.
+Print Assumptions C09_never_crashes.
+
+(* once a Close which tore the connection down has returned - in every state of every schedule
+   from then on - the connection is detached, its context cancelled, the state Shutdown and
+   reported as such, the reconnect loop, the publisher and the reader manager have ended, no
+   reader is attached to any transport, every write pump has run its deferred calls and every
+   socket is closed, a read pump can at most be on its way out, and no goroutine which the
+   connection's wait group counts is left *)
+Theorem C09_closed_is_final : forall ls, tore (exec good init ls) = true -> final (exec good init ls) = true.
+Proof. intros ls. apply inv_final. exact (inv_exec ls init inv_init). Qed.
+Print Assumptions C09_closed_is_final.
+
+(* after the connection has been detached (so, in particular, after Close has returned) a new
+   call fails at its first step: it neither panics nor waits *)
+Theorem C09_call_after_close_fails_at_once : forall ls i, let s := exec good init ls in
+  addr s = false -> i < length (gs s) -> getG s i = GInv0 -> step good s (LG i GA) = Some (setG s i (GDone true)).
+Proof. exact call_after_close. Qed.
+Print Assumptions C09_call_after_close_fails_at_once.
+
+(* after Close has returned no handler is started and no connection attempt is made: the steps
+   which hand a message to a reader, and the dial, are disabled for ever *)
+Theorem C09_nothing_starts_after_close : forall ls, let s := exec good init ls in tore s = true ->
+  (forall g kind, step good s (LHand g kind) = None) /\ (forall ok, step good s (LDial ok) = None) /\ (forall via, step good s (LRt via) = None).
+Proof. exact nothing_after_close. Qed.
+Print Assumptions C09_nothing_starts_after_close.
+
+(* the code as it was before the repairs, refuted: Invoke after Close and a second Close kill the
+   process (cfg without the nil guards) *)
+Theorem C09_old_invoke_after_close_refuted :
+  crashed (exec (mkCfg false true true true true true true true true true) init [LNewClose; LClose 0 true; LClose 0 true; LNewInvoke; LG 0 GA]) = true.
+Proof. vm_compute. reflexivity. Qed.
+Print Assumptions C09_old_invoke_after_close_refuted.
+Theorem C09_old_second_close_refuted :
+  crashed (exec (mkCfg true true true true true true true true false true) init [LNewClose; LNewClose; LClose 0 true; LClose 0 true; LClose 1 true; LClose 1 true]) = true.
+Proof. vm_compute. reflexivity. Qed.
+Print Assumptions C09_old_second_close_refuted.
